@@ -697,6 +697,7 @@ def helpers(prog: Program, rep: Report, MW: ClassInfo):
                 offenders.append(f"{rel}:{y.lineno}")
     rep.decide(not offenders, "G9.tokeniser", MW, "who-may-split", "only mode_wrapper.py tokenises mode strings",
                f"mode strings are tokenised outside ModeWrapper at {', '.join(offenders[:4])}", clause="C01.6")
+    mode_positions(prog, rep, MW, "C01.6")
     gi = MW.methods.get("get_item")
     if gi is not None:
         fa = fa_of(prog, gi)
@@ -762,3 +763,33 @@ def helpers(prog: Program, rep: Report, MW: ClassInfo):
                      and len(c.func.value.args) == 1 and ast.unparse(c.func.value.args[0]) in allseps and len(allseps) == 1]
             rep.decide(bool(idxs), "G9.tokeniser", ga, "torch-wrapper-index", "position from ModeWrapper.get_item_index",
                        "TorchWrapper computes item positions without ModeWrapper.get_item_index", clause="C01.6", nontrivial=False)
+
+
+def mode_positions(prog: Program, rep: Report, MW: ClassInfo, clause: str):
+    """positions are positions in the item list, never in the mode string"""
+    rep.rule("G9.mode-positions", "the mode helpers of ModeWrapper (has_item, get_item_index, get_item, set_item, add_item) compute "
+             "an item's position / presence on the tokenised mode (mode.split(sep)), never on the mode string itself: "
+             "'mode.index(item)' is a character offset and 'item in mode' a substring test ('x' is found in 'index')")
+    n = 0
+    for name in ("has_item", "get_item_index", "get_item", "set_item", "add_item"):
+        f = MW.methods.get(name)
+        if f is None:
+            continue
+        fa = fa_of(prog, f)
+        bad = []
+        for m, c in fa.calls():
+            if isinstance(c.func, ast.Attribute) and c.func.attr in ("index", "find", "count") and \
+                    fa.sym.term(c.func.value, m) == ("param", "mode"):
+                bad.append((c.lineno, f"mode.{c.func.attr}(...)"))
+        for m in fa.cfg.nodes:
+            for y in fa.cfg.walk_node(m):
+                if isinstance(y, ast.Compare) and len(y.ops) == 1 and isinstance(y.ops[0], (ast.In, ast.NotIn)) and \
+                        isinstance(y.comparators[0], ast.Name) and fa.sym.term(y.comparators[0], m) == ("param", "mode"):
+                    bad.append((y.lineno, "'... in mode'"))
+        n += 1
+        rep.decide(not bad, "G9.mode-positions", f, "on-the-item-list", "positions are taken on the tokenised mode",
+                   "; ".join(f"{w} at line {ln}" for ln, w in bad[:3]) + ": computed on the mode string, i.e. a character offset / "
+                   "substring test - right only for the first item", line=bad[0][0] if bad else f.node.lineno, clause=clause,
+                   nontrivial=False)
+    if n == 0:
+        rep.unk("G9.mode-positions", MW, "helpers", "no mode helper found", clause=clause)
